@@ -11,14 +11,11 @@
    history always continues from the IDEAL state. *)
 EXTENDS MCPinner, Randomization
 CONSTANTS E,           \* simulation: calls per behaviour
-          GenFaults,   \* faults used by the generator
-          GenModes,    \* PinWithMode modes used by the generator
           MaxMissing   \* simulation: blocks missing initially (0..MaxMissing)
 VARIABLES hist, dag0
 gvars == <<vars, hist, dag0>>
 
-GOps == {o \in AllOps : o.fault \in GenFaults /\ (o.op = "PinMode" => o.mode \in GenModes)}
-GCalls(s) == {o \in GOps : IsCall(s, o)}
+GCalls(s) == Calls(s)
 
 StateDevs == {"Dev_C22_FailedRepinUnpins", "Dev_C22_UpdateKeepsDirect"}
 QueryDev  == "Dev_C22_IndirectRootReported"
@@ -51,8 +48,7 @@ Slim(st)  == [o |-> st.o, exp |-> SlimE(st.exp),
 BehSG(h)  == [n |-> N, links |-> dag0.links, present |-> dag0.present,
               steps |-> [i \in 1..Len(h) |-> IF i + 2 <= Len(h) THEN Slim(h[i]) ELSE h[i]]]
 
-GInit == /\ links \in InitDags /\ present \in {Nodes} \cup {Nodes \ {m} : m \in Nodes}
-         /\ rec = {} /\ dir = {} /\ hist = <<>>
+GInit == /\ Init /\ hist = <<>>
          /\ dag0 = [links |-> links, present |-> present]
 
 SGView  == <<links, present, rec, dir, dag0>>
@@ -76,8 +72,8 @@ Kinds == <<"Pin", "Pin", "Pin", "Pin", "Pin", "PinMode", "PinMode", "PinMode", "
 Pinnd == RecRoots(St) \cup DirRoots(St)
 SimCall ==
   \E i \in RandomSubset(1, 1..Len(Kinds)), coin \in RandomSubset(1, 1..4),
-     f \in RandomSubset(1, BOOLEAN), nm \in RandomSubset(1, Names), m0 \in RandomSubset(1, GenModes), vm \in RandomSubset(1, 1..4),
-     ft \in RandomSubset(1, {"none", "none", "none"} \cup GenFaults), w \in RandomSubset(1, 1..3) :
+     f \in RandomSubset(1, BOOLEAN), nm \in RandomSubset(1, Names), m0 \in RandomSubset(1, ModeSet), vm \in RandomSubset(1, 1..4),
+     ft \in RandomSubset(1, {"none", "none", "none"} \cup FaultSet), w \in RandomSubset(1, 1..3) :
     LET kind == Kinds[i]
         m == IF vm = 1 THEN m0 ELSE IF vm = 2 THEN 2 ELSE 1       \* mostly the two valid modes
         fault == IF w = 1 THEN ft ELSE "none"                 \* two thirds of the calls without fault
